@@ -663,6 +663,21 @@ func genLayout(n int) {
 				words = append(words, pick(enumAlphabet))
 			}
 		}
+		// sometimes a word spelled like a keyword stands where a field name or a value is expected: whether it touches the
+		// colon or not must make no difference (both layouts are rejected)
+		if rng.Intn(10) == 0 {
+			for j := range words {
+				if words[j] == ":" && j > 0 && rng.Intn(2) == 0 {
+					if rng.Intn(2) == 0 {
+						words[j-1] = pick([]string{"AND", "or", "Not", "to", "OR", "not", "TO", "and"})
+					} else if j+1 < len(words) {
+						words[j+1] = pick([]string{"AND", "or", "Not", "to"})
+					}
+					valid = false
+					break
+				}
+			}
+		}
 		df := pick(dfChoices)
 		base := join(words, 0)
 		// whitespace variant (relation both ways: same tree or both fail)
